@@ -43,6 +43,7 @@ def _world(scalar_other=None):
     w.globals['sqrt'] = lambda I, x: SV(NUM, th.num_sqrt(coerce(x if isinstance(x, SV) else lift(x), NUM).t))
     w.globals['fabs'] = lambda I, x: SV(NUM, th.num_abs(coerce(x if isinstance(x, SV) else lift(x), NUM).t))
     w.globals['isnan'] = lambda I, x: SV(BOOL, th.is_nan(coerce(x if isinstance(x, SV) else lift(x), NUM).t))
+    w.globals['isfinite'] = lambda I, x: SV(BOOL, th.is_fin(coerce(x if isinstance(x, SV) else lift(x), NUM).t))
     w.globals['array_equal'] = lambda I, a, b: I.world.globals['np'].members['array_equal'](I, a, b)
     w.globals['shares'] = lambda I, a, b: isinstance(a, SArr) and isinstance(b, SArr) and a.buf == b.buf
     ns = w.globals['np']
@@ -70,7 +71,13 @@ WF_RES = ['result.error.size == result.value.size', 'result.value.size == self.v
 NONNEG2 = ALL.format(body='implies(self.error[i] >= 0 and other.error[i] >= 0, result.error[i] >= 0)')
 
 
-def c_binary(op):
+# the domain of C08: finite values, non-negative errors (an infinite error is non-negative; NaN is not).  Callers that need the formula outside of it
+# (C05 / C07 rely on it for NaN errors) verify the unguarded contract themselves (full=True) under their own property id.
+DOMAIN_PM = 'self.error[i] >= 0 and other.error[i] >= 0'
+DOMAIN_MD = DOMAIN_PM + ' and isfinite(self.value[i]) and isfinite(other.value[i])'
+
+
+def c_binary(op, full=False):
     method = {'+': '__add__', '-': '__sub__', '*': '__mul__', '/': '__truediv__'}[op]
     if op in '+-':
         val = f'self.value[i] {op} other.value[i]'
@@ -82,7 +89,8 @@ def c_binary(op):
         val = 'self.value[i] / other.value[i]'
         err = 'sqrt(sq(self.error[i] / other.value[i]) + sq(self.value[i] * other.error[i] / sq(other.value[i])))'
     ens = [('value-is-the-array-operation', ALL.format(body=f'same(result.value[i], {val})')),
-           ('error-is-the-first-order-uncorrelated-error', ALL.format(body=f'same(result.error[i], {err})')),
+           ('error-is-the-first-order-uncorrelated-error', ALL.format(body=f'same(result.error[i], {err})' if full else
+                                                                      f'implies({DOMAIN_PM if op in "+-" else DOMAIN_MD}, same(result.error[i], {err}))')),
            ('errors-stay-non-negative', NONNEG2 if op in '+-' else ALL.format(body='implies(self.error[i] >= 0 and other.error[i] >= 0 and not isnan(self.value[i]) and '
                                                                                   'not isnan(other.value[i]), result.error[i] >= 0 or isnan(result.error[i]))'))]
     ens += [(f'well-formed-{k}', e) for k, e in enumerate(WF_RES)] + [(f'left-operand-untouched-{k}', e) for k, e in enumerate(FRAME)] \
@@ -209,6 +217,17 @@ def run_unit(unit, tier, seed, known):
         out['value'] = solve.py_of(model, SV(NUM, ds['value'].elem(i0)))
         return out
     return {'functions': [prop.discharge(res, tier, ID, conc, replay_scalar)]}
+
+
+def verify_sub_full(tier, pid, replay_fn):
+    '''Dataset.__sub__ against its contract over ALL extended reals (NaN and infinite errors included): the contract C05 and C07 use at their call sites.
+    Discharged under the caller's property id.'''
+    w = _world()
+    w.add(c_consistency())
+    c = c_binary('-', full=True)
+    c.ensures = [(('callers-rely-on-' + lab) if isinstance(e, tuple) else e, ex) for e in c.ensures for lab, ex in [e]][:2]
+    c.variant = 'dataset-operand-any-extended-real'
+    return prop.discharge(verify_function(w, c), tier, pid, lambda m, r: {'note': 'see model text'}, replay_fn)
 
 
 def replay(name, inp):
